@@ -17,9 +17,10 @@ import (
 )
 
 type rawCase struct {
-	Cmds [][]string `json:"cmds_hex"` // each command: hex args
-	Cuts []int      `json:"cuts,omitempty"`
-	GapMs int       `json:"gap_ms,omitempty"`
+	Cmds  [][]string `json:"cmds_hex"` // each command: hex args
+	Cuts  []int      `json:"cuts,omitempty"`
+	GapMs int        `json:"gap_ms,omitempty"`
+	Stall int        `json:"stall_after_byte,omitempty"`
 }
 
 func hexs(args ...string) []string {
@@ -198,6 +199,65 @@ func (r *c01Runner) chunked(cmds [][]string, cuts []int, gapMs int) ([]byte, str
 	return got, "", nil
 }
 
+// a peer that stalls in the middle of the stream: after the bytes up to cut have been sent, exactly the replies
+// of the commands that are complete in that prefix must arrive (the rest of the stream is sent only after
+// they have been read), nothing more before the rest is sent, and the total must equal the baseline
+func (r *c01Runner) stalled(cmds [][]string, cut int, raws [][]byte) (string, error) {
+	c, err := r.fresh()
+	if err != nil {
+		return "", err
+	}
+	defer c.Close()
+	var stream []byte
+	complete := 0
+	for _, h := range cmds {
+		stream = append(stream, encodeCmd(unhexs(h))...)
+		if len(stream) <= cut {
+			complete++
+		}
+	}
+	if cut <= 0 || cut >= len(stream) {
+		return "", nil
+	}
+	if err := c.SendRaw(stream[:cut]); err != nil {
+		return "", err
+	}
+	for i := 0; i < complete; i++ {
+		if _, err := c.Read(3 * time.Second); err != nil {
+			return fmt.Sprintf("peer stalls after byte %d (%d complete commands sent, then %d bytes of the next): reply %d was not written while the peer stalled: %v (received so far %q)",
+				cut, complete, cut-len(bytes.Join(rawsLen(cmds[:complete]), nil)), i, err, tailBytes(c.Raw.Bytes(), 80)), nil
+		}
+	}
+	want := bytes.Join(raws[:complete], nil)
+	if got := c.Raw.Bytes(); !bytes.Equal(got, want) {
+		return fmt.Sprintf("peer stalls after byte %d: the replies to the %d complete commands differ from one-command-per-write (%d bytes vs %d)", cut, complete, len(got), len(want)), nil
+	}
+	c.c.SetReadDeadline(time.Now().Add(20 * time.Millisecond))
+	if b, err := c.r.Peek(1); err == nil {
+		return fmt.Sprintf("peer stalls after byte %d: bytes %q arrive for a command that has not been sent completely", cut, b), nil
+	}
+	if err := c.SendRaw(stream[cut:]); err != nil {
+		return "", err
+	}
+	for i := complete; i < len(cmds); i++ {
+		if _, err := c.Read(6 * time.Second); err != nil {
+			return fmt.Sprintf("after a stall at byte %d reply %d of %d is missing or malformed: %v", cut, i, len(cmds), err), nil
+		}
+	}
+	if got, all := c.Raw.Bytes(), bytes.Join(raws, nil); !bytes.Equal(got, all) {
+		return fmt.Sprintf("after a stall at byte %d the reply bytes differ from one-command-per-write (%d bytes vs %d)", cut, len(got), len(all)), nil
+	}
+	return "", nil
+}
+
+func rawsLen(cmds [][]string) [][]byte {
+	var out [][]byte
+	for _, h := range cmds {
+		out = append(out, encodeCmd(unhexs(h)))
+	}
+	return out
+}
+
 func runC01(cfg runCfg, res *Result) error {
 	g := rand.New(rand.NewSource(cfg.seed))
 	srv, err := startServer("")
@@ -219,6 +279,8 @@ func runC01(cfg runCfg, res *Result) error {
 		res.Mismatches = append(res.Mismatches, &Mismatch{Index: -1, Op: kind, Why: why})
 		res.Replays = append(res.Replays, path)
 	}
+	var stallCuts []int
+	stalls := 0
 	checkPipeline := func(cmds [][]string, cutSets [][]int, gaps []int) (string, any, error) {
 		raws, why, err := r.baseline(cmds)
 		if err != nil {
@@ -246,6 +308,16 @@ func runC01(cfg runCfg, res *Result) error {
 					rawCase{Cmds: cmds, Cuts: cuts, GapMs: gaps[i%len(gaps)]}, nil
 			}
 		}
+		for _, cut := range stallCuts {
+			why, err := r.stalled(cmds, cut, raws)
+			if err != nil {
+				return "", nil, err
+			}
+			stalls++
+			if why != "" {
+				return why, rawCase{Cmds: cmds, Stall: cut}, nil
+			}
+		}
 		return "", nil, nil
 	}
 
@@ -263,7 +335,9 @@ func runC01(cfg runCfg, res *Result) error {
 		}
 		res.Histories = 1
 		if rp.Kind == "parse" {
-			var pc struct{ Hex string `json:"hex"` }
+			var pc struct {
+				Hex string `json:"hex"`
+			}
 			json.Unmarshal(rp.Case, &pc)
 			if why, _ := r.parseOne(unhex(pc.Hex)); why != "" {
 				res.Mismatches = append(res.Mismatches, &Mismatch{Index: -1, Op: "parse", Why: why})
@@ -275,6 +349,9 @@ func runC01(cfg runCfg, res *Result) error {
 		cutSets := [][]int{{}}
 		if len(rc.Cuts) > 0 {
 			cutSets = append(cutSets, rc.Cuts)
+		}
+		if rc.Stall > 0 {
+			stallCuts = []int{rc.Stall}
 		}
 		why, _, err := checkPipeline(rc.Cmds, cutSets, []int{rc.GapMs})
 		if err != nil {
@@ -324,6 +401,16 @@ func runC01(cfg runCfg, res *Result) error {
 				cutSets = append(cutSets, []int{p})
 			}
 		}
+		// stalls: the peer stops inside a later command (mid-header, mid-argument, between CR and LF)
+		stallCuts = nil
+		ns := 5
+		if cfg.tier == "thorough" {
+			ns = 12
+		}
+		first := len(encodeCmd(unhexs(cmds[0])))
+		for k := 0; k < ns && first+1 < len(stream); k++ {
+			stallCuts = append(stallCuts, first+1+g.Intn(len(stream)-first-1))
+		}
 		res.Histories++
 		if len(res.Samples) < 2 {
 			res.Samples = append(res.Samples, fmt.Sprintf("pipeline of %d commands, %d bytes, %d segmentations; first command %q", n, len(stream), len(cutSets), unhexs(cmds[0])))
@@ -337,6 +424,7 @@ func runC01(cfg runCfg, res *Result) error {
 		}
 	}
 	res.Extra["pipelines"] = res.Histories
+	res.Extra["stalled_peer_runs"] = stalls
 
 	// request deserializer vs model
 	np := 0
